@@ -252,6 +252,8 @@ int main(int argc, char** argv) {
   v_init();
   if (argc < 2) { fprintf(stderr, "usage: h_reg <opfile>\n"); return 2; }
   size_t nl; char** lines = v_read_lines(argv[1], &nl);
+  /* a registry without an empty slot makes GC_Set_Ptr / GC_Mem_Ptr spin for ever: turn that into a quick failure */
+  alarm(120 + (unsigned)(nl / 200));
   struct GC* gc = current(GC);
   volatile var held[LISTMAX + 1];
   for (int i = 0; i <= LISTMAX; i++) held[i] = NULL;
